@@ -1,0 +1,1 @@
+//! Hooks for property C33 (empty unless needed).
